@@ -19,6 +19,7 @@ type Case struct {
 	Text   string   `json:"text"`   // URL text exactly as the seed list / Location header / extractor delivers it
 	Filter Filter   `json:"filter"`
 	Tok    Tok      `json:"tokens"`
+	Layout *layout  `json:"exclusion_file_layout,omitempty"` // set by the exclusion-file delivery grid only
 }
 
 // ---------------------------------------------------------------- the oracle
